@@ -12,6 +12,7 @@ CLAIMS = {
  'C20': ("codec round trips (varint, delta, id lists, RLE) and decoder totality on arbitrary bytes, for every value within the stated lengths", "§4 C20"),
  'C01': ("per-handler inductive Raft obligations (terms monotone, one vote per term to an up-to-date candidate, persisted before reply; AppendEntries acknowledges/commits only the vouched prefix and matches the leader's entries; leader commit rule; stale responses ignored; election quorum; pre-vote read-only) for every pre-state and message of the bounded shape; the composition into cluster-level safety is the textbook argument, not machine-checked", "§4 C01"),
  'C02': ("durable store, log framing only: every acknowledged log record is read back in order after a crash at any byte of the last record (immediate sync) or at any length above the synced length (manual sync), and after a further append + restart; slab contents/checkpoints are not decided", "§4 C02"),
+ 'C03': ("coordinator decision rules, one call from an arbitrary pending table: Prepared only from Preparing with a Yes from every participant, Aborting only when all voted and a vote is not Yes or a cross-shard conflict was found, commit only from Prepared with TxComplete logged before any lock release and the transaction removed, errors change nothing, timeouts abort once, Yes-vote lock handles are released; participants and message interleavings are not decided", "§4 C03"),
  'C04': ("index key encodings vs the row-level predicate for every Int/Float/Bool/Null pair (hash-index and ordered-index lookups are complete), OrderedFloat total preorder, and the vectorised filters bit for bit against the scalar predicate (f64 kernels in the MIR executor, i64 kernels and bitmap ops under Kani); plan equivalence over engine state is not decided", "§4 C04"),
  'C06': ("stored-representation round trip only: to_dense(try_from_dense(v)) for every f32 bit pattern up to the stated dimension, representation invariants; scores/top-k/HNSW/cache not decided", "§4 C06"),
  'C07': ("snapshot header codec only: raw round trip, validate accepts exactly the v3 magic + current version, every single-bit flip in magic/version rejected; slab contents and rename atomicity not decided", "§4 C07"),
